@@ -89,7 +89,16 @@ Inductive stmt :=
 | SExpr (e : expr)                               (* an expression evaluated for its exceptions *)
 | SRaise
 | SReturn (e : expr)
-| SPass.
+| SPass
+| SCallSt (t : string) (x : string) (f : string) (args : list expr)
+    (* t = x.m(args) / t = f(x, args) where the call CHANGES THE STATE of the object x (a file being read,
+       a random generator): [f] (given by specification in the [user] table) receives the state of x
+       and the arguments and returns the pair (result, new state); t is bound to the result and x is
+       rebound to the new state.  The serialiser hoists such calls out of the expression they occur
+       in, admitting them only in the position that is evaluated first *)
+| SYield (e : expr).
+    (* yield e: the yielded values are collected, in order, in the hidden variable "$yield"
+       (see [run_gen]) *)
 
 Record func := { f_params : list string; f_body : list stmt }.
 
@@ -862,6 +871,23 @@ Fixpoint exec (s : stmt) (env : list (string * val)) {struct s} : outcome :=
   | SRaise => Raised
   | SReturn e => match eval env e with Some (Some v) => Returned v | Some None => Raised | None => Stuck end
   | SPass => Normal env
+  | SCallSt t x f args =>
+      match lookup env x, eval env (ETuple args) with
+      | Some st, Some (Some (VT vs)) =>
+          match (match user f with Some g => g (st :: vs) | None => call f (st :: vs) end) with
+          | Some (Some (VT [r; st'])) => Normal ((t, r) :: (x, st') :: env)
+          | Some None => Raised
+          | _ => Stuck
+          end
+      | Some _, Some None => Raised
+      | _, _ => Stuck
+      end
+  | SYield e =>
+      match lookup env "$yield", eval env e with
+      | Some (VL l), Some (Some v) => Normal (("$yield", VL (l ++ [v])) :: env)
+      | Some (VL _), Some None => Raised
+      | _, _ => Stuck
+      end
   end.
 
 Fixpoint exec_list (l : list stmt) (env : list (string * val)) : outcome :=
@@ -955,6 +981,20 @@ Definition run_kw (f : func) (kws : list string) (args : list val) : outcome :=
            end
        end
   else Stuck.
+
+(** calling a generator function and consuming it to the end: the list of the yielded values.
+    An exception raised before the generator is exhausted propagates to the consumer ([Raised]; the
+    values yielded before it are not observed); `return` ends the generator. *)
+Definition run_gen (f : func) (args : list val) : outcome :=
+  match bind_targets (f_params f) args [("$yield", VL [])] with
+  | None => Stuck
+  | Some env =>
+      match exec_list (f_body f) env with
+      | Normal env' => match lookup env' "$yield" with Some v => Returned v | None => Stuck end
+      | Returned _ => Stuck      (* `return` inside a generator: not needed so far, kept outside the fragment *)
+      | o => o
+      end
+  end.
 
 End Eval.
 
